@@ -255,8 +255,19 @@ func analyse(stanzaNS, s string) (facts, error) {
 	}
 	if f.k != kTop {
 		f.typ, ok = attrOf(st, "type")
-		if !ok && f.k == kMsg {
-			f.typ = "normal" // RFC 6121 §5.2.2
+		if f.k == kMsg {
+			// RFC 6121 §5.2.2 and the documentation of stanza.MessageType: a message
+			// without type, or with a type that is not one of the five defined ones,
+			// is a normal message
+			known := false
+			for _, mt := range msgTypes {
+				if f.typ == mt {
+					known = true
+				}
+			}
+			if !ok || !known {
+				f.typ = "normal"
+			}
 		}
 		f.id, _ = attrOf(st, "id")
 		f.to, _ = attrOf(st, "to")
@@ -897,6 +908,10 @@ func genStanza(t *rapid.T, stanzaNS string, k kind, typ string) *elem {
 	e := &elem{local: k.String(), ns: stanzaNS}
 	omit := (k == kMsg && typ == "normal" || k == kPres && typ == "") && rapid.Bool().Draw(t, "omitType")
 	if !omit {
+		if k == kMsg && typ == "normal" && rapid.IntRange(0, 2).Draw(t, "unknownType") == 0 {
+			// an unrecognised (or empty) type value: still a normal message
+			typ = rapid.SampledFrom([]string{"", "broadcast", "CHAT", "Normal", "chat ", "get", "unavailable"}).Draw(t, "unknownTypeValue")
+		}
 		e.attrs = append(e.attrs, [2]string{"type", typ})
 	}
 	if id := rapid.SampledFrom([]string{"", "i1", "42"}).Draw(t, "id"); id != "" || k == kIQ {
